@@ -143,6 +143,9 @@ func (e *engine) runOnce(sp Spec, bound time.Duration) (o outcome) {
 			o.incon = append(o.incon, "unknown scenario kind "+sp.Kind)
 		}
 	})
+	if len(o.findings) > 0 && e.w != nil {
+		e.w.dirty = true // whatever was found must not leak into the next scenario's verdicts
+	}
 	if pv != nil {
 		if e.w != nil {
 			e.w.dirty = true
@@ -183,7 +186,9 @@ func (e *engine) runConfirmed(sp Spec) {
 	if o.class != "" {
 		c.Distinct(sp.key() + "|" + o.class)
 	}
-	c.SampleSome(7, func() any { return map[string]any{"spec": sp, "exercised": o.class, "info": o.info, "candidates": len(o.findings)} })
+	c.SampleSome(7, func() any {
+		return map[string]any{"spec": sp, "exercised": o.class, "info": o.info, "candidates": len(o.findings)}
+	})
 	for _, s := range o.incon {
 		c.Inconclusive(sp.Kind + ": " + s)
 	}
